@@ -8,23 +8,33 @@ HARNESS_TIMEOUT = 1800
 
 TRUSTED = [
     "Lean 4 kernel; axioms of every theorem audited (propext, Classical.choice, Quot.sound at most)",
-    "hand-written model lean/CppUModel/Model/Diagnostics.lean (failure-message builders of TestFailure.cpp, SimpleStringBuffer / "
-    "MemoryLeakOutputStringBuffer of MemoryLeakDetector.cpp), tied to the code by the h_c14 correspondence of this run "
-    "(byte-exact messages and report texts, fill position / write limit through hook H2)",
-    "translate/extract_diagnostics.py: buffer length, footer macro texts and the reserve expression, every vsnprintf format, dump "
-    "width, marker window, shape checks of the loop-free SimpleStringBuffer functions and of the seven scan loops",
-    "vsnprintf contract: stores min(len, size-1) bytes plus a terminator and returns len; the C library's %p and %.7g renderings are inputs",
-    "SimpleString value operations used by the message builders (+, subString, printable, StringFrom…) are modelled by their list "
-    "meaning (their memory safety is property C13); operands are NUL-terminated C strings / arrays of the stated size",
+    "hand-written model lean/CppUModel/Model/Diagnostics.lean (failure-message builders of TestFailure.cpp, the text side of "
+    "SimpleStringBuffer::add, addMemoryDump, the report as a fold over the leak list), tied to the code by the h_c14 correspondence of "
+    "this run (byte-exact messages and report texts, fill position / write limit through hook H2); the counter arithmetic and control "
+    "flow of SimpleStringBuffer and the bodies of MemoryLeakOutputStringBuffer are NOT trusted to the hand model any more: they are "
+    "regenerated from the clang AST and proved equal to it",
+    "translate/extract_diagbuf.py and translate/extract_diagfailure.py (clang++-14 typed JSON AST -> Lean: SimpleStringBuffer's six "
+    "loop-free members on BitVec 64/32 with clang's own implicit conversions, MemoryLeakOutputStringBuffer's bodies as statement lists "
+    "with helpers inlined, the seven scan loops' conditions/reads/headers and the createDifferenceAtPosString call arguments); "
+    "the interpreter of the statement lists (Model/DiagnosticsCode.lean, 60 lines); translate/extract_diagnostics.py (token level: buffer "
+    "length, macro texts, every vsnprintf format, dump width, marker window; text-shape checks of addMemoryDump, createButWasString, "
+    "createDifferenceAtPosString, createUserText, ContainsFailure, toString)",
+    "vsnprintf contract: writes at most `size` bytes (for the bounds), stores min(len, size-1) bytes plus a terminator and returns len "
+    "(for the text); the C library's %p and %.7g renderings are inputs",
+    "SimpleString value operations used by the message builders (+, subString, printable, StringFrom…, StringFromFormat) are modelled by "
+    "their list meaning (their memory safety is property C13); operands are NUL-terminated C strings / arrays of the stated size",
     "the harness mirrors the detector's table order (address % table size, newest first) to hand the leak list to the model",
 ]
 ASSUMPTIONS = [
-    "LP64; fewer than 2^31 leaks in one report and formatted pieces shorter than 2^31 bytes ((int) casts do not wrap)",
+    "LP64; fewer than 2^31 leaks in one report and formatted pieces shorter than 2^31 bytes ((int) casts do not wrap); the bounds theorem "
+    "on the regenerated add (gen_add_safe) needs neither: it holds for every int vsnprintf can return",
     "BITS_EQUAL byte count >= 1 (the macros pass sizeof); file names and allocator names are non-NULL C strings",
     "the memory dump prints offsets below 65536 with four hex digits (larger leaks widen the column; the bounds theorems do not depend on it)",
 ]
 RULE = ("(a) every failure class of TestFailure.h (UnexpectedExceptionFailure and the plain TestFailure included) constructed directly with operand pairs: equal, equal printed forms, empty, NULL, 10 kB, "
-        "non-printable/high bytes, differing at the first/last/after-window position, prefix of each other, case-only differences; "
+        "non-printable/high bytes, differing at the first/last/after-window position, prefix of each other, case-only differences; every "
+        "constructed failure is also copy-constructed and the copy compared; a boundary stream sizes operands so that one StringFromFormat "
+        "result has 97..102 bytes (both sides of VStringFromFormat's 100-byte stack buffer); "
         "(b) standalone SimpleStringBuffer add/setWriteLimit/resetWriteLimit/clear/addMemoryDump with lengths dense around the "
         "remaining space and the 4095/4096 boundary; MemoryLeakOutputStringBuffer and a private MemoryLeakDetector: 0-40 misuse "
         "messages with file names of 0-2000 bytes, reports of 0-5000 leaks of 0-300 bytes, listings crafted to straddle the lowered "
@@ -37,15 +47,26 @@ LEVEL_TEXT = ("Machine-checked Lean 4 theorems over an executable model of the f
               "rendering; the buffer invariant (fill position and limit at most 4095, text length = fill position, terminated, "
               "canary untouched) holds for every history of misuse messages, reports and clears with any number/size/content of "
               "leaks and file-name lengths; the footer reserve computed from the regenerated macro texts is enough; a report begun "
-              "on a cleared buffer ends with the true total and carries the too-many notice exactly when the listing reached the "
-              "limit. The model is tied to the code on every run by a byte-exact differential harness under ASan/UBSan (operands in "
-              "exact-size heap blocks, hook H2 canary) and by regenerated constants/formats/shape checks; the implementation's own "
-              "observations are judged by an independent oracle (textbook renderings).")
-LEVEL_NOTE = ("Trusted: Lean kernel; the hand-written model (validated byte for byte by this run); the extractor; the vsnprintf "
-              "contract; SimpleString value semantics (C13). Observed only, not proved: that the compiled code reads only inside the "
-              "operands (ASan on exact-size blocks), the %p/%.7g renderings, typeid/demangled exception type names (inputs). "
+              "on a cleared buffer ends with the true total, carries the too-many notice exactly when the listing reached the "
+              "limit and lists every leak completely when the listing fits. REGENERATED FROM THE SOURCE ON EVERY RUN (clang AST) and "
+              "proved equal to that model: SimpleStringBuffer's constructor/clear/add/setWriteLimit/resetWriteLimit/reachedItsCapacity "
+              "as 64/32-bit machine arithmetic (plus the bounds re-proved directly on it for every int vsnprintf may return and every "
+              "64-bit limit, over whole histories), the bodies of MemoryLeakOutputStringBuffer::clear/startMemoryLeakReporting/"
+              "reportMemoryLeak/stopMemoryLeakReporting/reportFailure with their helpers (whole histories run by the regenerated "
+              "bodies = the model's run), the footer reserve from clang's sizeofs, the conditions, operand wiring and headers of the "
+              "seven scan loops and the arguments of the createDifferenceAtPosString calls. The rest of the model is tied to the code "
+              "on every run by a byte-exact differential harness under ASan/UBSan (operands in exact-size heap blocks, hook H2 "
+              "canary) and by regenerated constants/formats/shape checks; the implementation's own observations are judged by an "
+              "independent oracle (textbook renderings; the copy-constructed failure must say the same).")
+LEVEL_NOTE = ("Trusted: Lean kernel; the two AST translators and the 60-line interpreter of the regenerated statement lists; the "
+              "hand-written model where it is not regenerated (text of add, addMemoryDump's loops, the message builders' string "
+              "concatenations, validated byte for byte by this run); the token-level extractor; the vsnprintf contract; SimpleString "
+              "value semantics (C13). Observed only, not proved: that the compiled code reads only inside the operands (ASan on "
+              "exact-size blocks), VStringFromFormat's stack/heap switch at 100 bytes (boundary stream; its model is C13's), the "
+              "%p/%.7g renderings, typeid/demangled exception type names (inputs). "
               "STRCMP_CONTAINS with a NULL operand shows it as an empty string (the conversion happens before the failure class).")
-TECHNIQUE = "Lean 4 bounded-read/invariant proofs over an executable model + byte-exact differential harness (ASan, canary hook) + regenerated formats/constants"
+TECHNIQUE = ("Lean 4 bounded-read/invariant/refinement proofs over an executable model + clang-AST translators (machine arithmetic, "
+             "statement lists, loop conditions) with regenerated-equals-model obligations + byte-exact differential harness (ASan, canary hook)")
 
 
 def hx(b):
@@ -206,6 +227,35 @@ def failure_op(rng, contains_raw=False):
 
 def failure_case(rng, n):
     return [failure_op(rng) for _ in range(n)]
+
+
+FMT_BUF = 100        # sizeOfdefaultBuffer of VStringFromFormat: results of 99 bytes use the stack buffer, 100 the heap
+
+
+def fmt_boundary_op(rng):
+    """operands sized so that the text built by one StringFromFormat call has 97..102 bytes (both sides of the
+    100-byte stack buffer of VStringFromFormat, where the second vsnprintf into a heap block of size+1 starts)"""
+    total = rng.choice([97, 98, 99, 99, 100, 100, 101, 102])
+    k = rng.choice(["equalsss", "equals", "contains", "strequal", "checkequal", "exc", "longs"])
+    t = hx(b"")
+    if k in ("equalsss", "equals", "strequal", "checkequal"):
+        room = total - 24                    # "expected <" + ">\n\tbut was  <" + ">"
+        le = rng.randint(0, room)
+        e, a = rstr(rng, le), rstr(rng, room - le)
+        if k in ("strequal", "checkequal") and e and rng.random() < 0.5:
+            a = e[:len(a)] + a[len(e):] if len(a) >= len(e) else e[:len(a)]      # long common prefix: window far right
+            a = (a + rstr(rng, room))[:room - le]
+        return "f %s %s %s %s" % (k, hx(e), hx(a), t)
+    if k == "contains":
+        room = total - 30                    # "actual <" + ">\n\tdid not contain  <" + ">"
+        le = rng.randint(0, room)
+        return "f contains %s %s %s" % (hx(rstr(rng, le)), hx(rstr(rng, room - le)), t)
+    if k == "exc":
+        # "Unexpected exception of type '" + name + "' was thrown: " + what; runtime_error demangles to 18 bytes
+        room = total - 44 - len("std::runtime_error")
+        return "f exc runtime %s" % hx(rstr(rng, max(room, 0)))
+    # longs with a user text: createUserText is plain concatenation, the numbers go through StringFromFormat
+    return "f longs %d %d %s" % (rng.choice(INTS), rng.choice(INTS), hx(rstr(rng, total)))
 
 
 # ------------------------------------------------------------------ (b) buffers
@@ -456,6 +506,8 @@ def generate(rng, tier):
     out = []
     for _ in range(260 if q else 6000):
         out.append(("fail", failure_case(rng, rng.choice([4, 8, 12]))))
+    for _ in range(25 if q else 400):
+        out.append(("fmtboundary", [fmt_boundary_op(rng) for _ in range(6)]))
     for _ in range(6 if q else 60):
         out.append(("containsraw", [failure_op_contains_raw(rng) for _ in range(3)]))
     for _ in range(90 if q else 2000):
@@ -481,8 +533,9 @@ def failure_op_contains_raw(rng):
 
 
 def translate(ctx):
-    from translate import extract_diagnostics
-    return extract_diagnostics.run()
+    from translate import extract_diagnostics, extract_diagbuf, extract_diagfailure
+    problems = extract_diagnostics.run()
+    return problems + extract_diagbuf.run() + extract_diagfailure.run()
 
 
 def nontrivial(r):
@@ -519,6 +572,22 @@ def observe(r, rep):
                         pass
                 if len(e) > 8000 or len(a) > 8000:
                     rep.count("operands.4kB_or_more")
+        elif w[0] == "msg" and len(w) == 2:
+            # length of the "expected <..>\n\tbut was  <..>" part: which buffer VStringFromFormat used
+            try:
+                m = bytes.fromhex(w[1]) if w[1] != "-" else b""
+            except ValueError:
+                m = b""
+            at = m.find(b"expected <")
+            end = m.find(b"\n\tdifference starts", at)
+            if at >= 0:
+                n = (end if end >= 0 else len(m)) - at
+                if 97 <= n <= 102:
+                    rep.count("format.butwas_len_%d" % n)
+                else:
+                    rep.count("format.butwas_len_" + ("<97" if n < 97 else ">102"))
+        elif w[0] == "copy":
+            rep.count("copy.same_%s" % w[1])
         elif w[0] == "pos" and w[1] != "none":
             p = int(w[1])
             rep.count("position." + ("0" if p == 0 else "1..20" if p <= 20 else "21..255" if p < 256 else ">=256"))
